@@ -75,7 +75,7 @@ func verifDomainPrefixBasic(domain string) (string, error) {
 	verifBasic = string(make([]byte, [4]int{1, 63, 64, 70}[n]))
 	return verifBasic, nil
 }
-func verifFallback(domain string) string { return "fallback" }
+func verifFallback(domain string) string { return "fallback:" + domain }
 
 func VerifC11_DomainPrefixChoice() {
 	got := domainPrefix("example.com")
@@ -84,11 +84,12 @@ func VerifC11_DomainPrefixChoice() {
 		verifapi.Assert(got == verifBasic, "the basic algorithm's prefix is used when it succeeds with at most 63 bytes")
 	} else {
 		verifapi.Cover("fallback prefix used")
-		verifapi.Assert(got == "fallback", "otherwise the SHA-256/base32 fallback is used")
+		verifapi.Assert(got == "fallback:example.com", "otherwise the SHA-256/base32 fallback of the publisher domain itself is used")
 	}
 }
 
 func verifSum256(data []byte) [32]byte {
+	verifapi.Assert(string(data) == "example.com", "the fallback hashes the bytes of the publisher domain")
 	var h [32]byte
 	for i := range h {
 		h[i] = verifapi.Uint8("sha256")
